@@ -25,6 +25,7 @@ RULE = ("Exhaustive blocks: every calendar date 0001-01-01..9999-12-31 (thorough
         "the reference value, vDDDTypes.from_ical classifies it correctly. Excluded by construction: year 0000, second 60, "
         "-0000 offsets. Non-trivial: every value of the finite sweeps (distinct by construction); for Hypothesis cases distinct "
         "by hash; durations with >= 2 non-zero units or negative and floats outside [1e-4, 1e16) are counted as classes.")
+RULE += " Rounds 7-8: DATE-TIME form #3 texts (local time + zone reference as id or tzinfo object, walls aimed at offset changes of ~600 zones; oracle RFC 5545 3.3.5 computed with the tz library itself; non-trivial when the wall time is repeated or skipped under some provider); instances of date/datetime/time/timedelta subclasses through vDDDTypes and the type's own encoder."
 ASSUMPTIONS = ["leap second 60 and year 0000 are outside the domain (not representable in datetime)",
                "BINARY payloads are text (vBinary encodes str as UTF-8)"]
 REQUIRED_CLASSES = ["twins:bool+float+int", "twins:month", "t:date", "t:datetime", "t:time", "t:offset", "t:duration", "t:period", "t:int", "t:float", "t:bool", "t:binary",
